@@ -19,7 +19,8 @@ Requests (one per line, answers one line each):
   lreopen <id>                      drop the object, open a new one on the storage -> ok
   bnew <id> <height> <ped|pos> <0|1> trie2 with node database, tracer and lazy resolution (1 = tracer records the
                                     absolute path of a deleted last-level leaf)           -> ok
-  bput <id> <keyhex> <valhex>       Trie.Update                                     -> ok | err:update
+  bput <id> <keyhex> <valhex>       Trie.Update   -> ok | ok:<flags> | err:update   (flags: i/d = insert/delete went
+                                    through an unresolved node, s = collapse into an unresolved sibling)
   bhash <id>                        Trie.Hash()                                     -> <term>
   bget <id> <keyhex>                Trie.Get through unresolved nodes               -> <term> | err:get
   bcommit <id>                      Trie.Commit(), write the node set, reopen       -> <rootterm> none | <rootterm> entry...
@@ -191,7 +192,11 @@ def step (s : St) (line : String) : St × String :=
       | some (_, t) =>
         if key ≥ 2 ^ t.height then (s, "err:key-too-big") else
         match Trie2S.update t (natToPath t.height key) (.felt val) with
-        | some t' => ({ s with lazyT := (id, t') :: s.lazyT.filter (·.1 != id) }, "ok")
+        | some t' =>
+          let flags := (if t'.tracer.viaIns > t.tracer.viaIns then "i" else "") ++
+            (if t'.tracer.viaDel > t.tracer.viaDel then "d" else "") ++
+            (if t'.tracer.viaSib > t.tracer.viaSib then "s" else "")
+          ({ s with lazyT := (id, t') :: s.lazyT.filter (·.1 != id) }, if flags.isEmpty then "ok" else "ok:" ++ flags)
         | none => (s, "err:update")
       | none => (s, "bad-op")
     | _, _, _ => (s, "bad-op")
